@@ -22,7 +22,7 @@ SPECS = {
                       "run-time oracle uses an executable bounded closure for reachability; the theorems use the inductive relation `Reaches`"],
         assumptions=["std HashSet iteration order is stable while the set is unmodified",
                      "DependencyResolver's internal HashMap order is unobservable: compared on ok/err + validity of the order"],
-        rule="all digraphs on <=3 (quick) / <=4 (thorough) labelled nodes incl. self-loops x all non-empty request subsets, "
+        rule="all digraphs on <=3 (quick) / <=4 (thorough) labelled nodes incl. self-loops x all non-empty request subsets,  [also: names as projects have them - equal up to letter case, numbered with digit runs of any length, prefixes of one another, pairs colliding under six well-known 32-bit string hashes; a quarter of the DFS cases build the object through Default] "
              "rebuilt several times for fresh hash orders, plus random graphs up to 12 nodes (multi-edges, undefined deps); "
              "non-trivial = at least one edge and two names; distinct = by hash of the abstract graph+request",
         exhaustive={"quick": True, "thorough": True},
@@ -235,7 +235,7 @@ def _pspecs():
             trusted_base=[LEAN_TB, PROC_TB, "faults are injected by filesystem obstacles: a directory in place of the file to be written, a regular file in place of the output directory"],
             assumptions=FS_ASSUME + ["a failing write of the cache record itself is covered by the theorems only (after invalidate-first no static obstacle makes exactly that write fail)",
                                      "crash points are covered by the theorem C17_every_prefix; the real binary is not killed mid-run"],
-            rule="for every operation of the plan that an obstacle can make fail (output path, types.ts, commands.ts, events.ts, index.ts, dependency-graph.txt/.dot with visualisation on): the fault in a first run, in a run after an output-changing edit,  [fault kinds: a directory in place of the file, /dev/full, an immutable record, a blocked write probe, a busy target (ETXTBSY), a read-only file system] "
+            rule="for every operation of the plan that an obstacle can make fail (output path, types.ts, commands.ts, events.ts, index.ts, dependency-graph.txt/.dot with visualisation on): the fault in a first run, in a run after an output-changing edit,  [fault kinds: a directory in place of the file, /dev/full, an immutable record, a blocked write probe, a busy target (ETXTBSY), a read-only file system]  [crash points also: the edit undone before the next run; the crashed run a forced one] "
                  "and with the edit reverted before the recovery run; both paths; thorough adds double faults and a second reverted aspect; every history ends with recovery runs compared with a fresh generation; non-trivial = all; distinct = history; the same in Zod mode; an immutable cache record; `init` with a write fault; crash points (the process killed by a file-size limit of 0 / 400 / 1500 bytes inside a write, thorough also 100 / 900) followed by a plain run",
             exhaustive={"quick": True, "thorough": True},
             exhaustive_scope={"quick": "all single-write fault positions x {first run, run after edit, edit reverted} x {cli, build} x {viz off, on}", "thorough": "same + double faults"},
@@ -246,7 +246,7 @@ def _pspecs():
                           "modelled, not verified: serde_json parses and prints JSON values faithfully (numbers are whatever serde_json::Value holds; precision beyond f64 not modelled); clap parses the flags"],
             assumptions=FS_ASSUME + ["'preserves every other key and value' is read on JSON values (serde_json without preserve_order sorts keys on write)",
                                      "effective settings are observed from outside: which project's command appears, where files land, the Generator line of types.ts, verbose output, whether an identical second invocation rewrites"],
-            rule="function-level: random JSON documents (nested objects/arrays, Unicode and escaped strings, i64/u64 extremes, decimals; plugins absent / object / with typegen / non-object; non-object documents) x 6 settings values x existing / missing project path  [the document in each of the three places the tool looks in: working directory, ./src-tauri, parent directory] "
+            rule="function-level: random JSON documents (nested objects/arrays, Unicode and escaped strings, i64/u64 extremes, decimals; plugins absent / object / with typegen / non-object; non-object documents) x 6 settings values x existing / missing project path  [the document in each of the three places the tool looks in: working directory, ./src-tauri, parent directory]  [path values with backslashes, `~`, `$HOME`, `%VAR%`, `..`, blanks, URL form: stored and read back as written] "
                  "through the real save_to_tauri_config and from_tauri_config; process-level: all 32 subsets of {-p,-o,-v,--verbose,--force} x 7 file blocks (absent, valid, valid+verbose+force, unsupported library, missing project path, partial, empty) "
                  "(quick: a third of the masks only with the 3 most informative blocks), init x {none,zod,yup,Zod} x 5 plugins values; non-trivial = all; distinct = input",
             exhaustive={"quick": False, "thorough": True},
@@ -257,7 +257,7 @@ def _pspecs():
             trusted_base=[LEAN_TB, PROC_TB, "tg-extract (syn) re-reads is_generated_file's patterns, the names passed to write_typescript_file, CACHE_FILE_NAME, the dependency-graph names and the write-probe name from the source on every run; the C16 theorems are re-checked against them",
                           "that every operation targets `<output dir>/<name>` (format!/join) is modelled by construction and validated by recursive before/after snapshots of the whole sandbox"],
             assumptions=FS_ASSUME + ["OutputManager's per-run managed_files set only contains names the run itself wrote", "directories are created only along the output path"],
-            rule="output directory beside / nested inside / deep below / outside the project, relative and absolute, pre-populated with 14 foreign names close to the reserved ones  [also: output directories whose own name matches the tool's patterns (`__generated__`, `generated_bindings/ts_generated`); the user's own renderings `dependency-graph.png/.svg/.json`] "
+            rule="output directory beside / nested inside / deep below / outside the project, relative and absolute, pre-populated with 14 foreign names close to the reserved ones  [also: output directories whose own name matches the tool's patterns (`__generated__`, `generated_bindings/ts_generated`); the user's own renderings `dependency-graph.png/.svg/.json`]  [layout `symup`: `web/../generated` with `web` a symbolic link into another tree; a hand-written typegen block in tauri.conf.json followed by `init --output` another document] "
                  "(incl. a sub-directory with a types.ts) and 5 reserved decoys; sequences of generate / generate --visualize-deps / build-script runs / init (tauri.conf.json and custom file) / runs after all commands were removed; "
                  "recursive hash+mtime snapshot of the whole sandbox before and after every action; non-trivial = all; distinct = (layout, path kind, mode, sequence, seed); further layouts (directory names with a backslash / spaces / `./x/./y/`), a blocked write probe, a foreign directory called `.typecache`, `init` with a named configuration document, user files that look generated or carry the tool's header, every sequence of up to three actions over {generate, build, generate --visualize-deps, touch a source, drop the commands, doctored cache record, blocked / unblocked probe, .typecache directory} ending in a run (thorough: all 273; quick: one in ten), an output flag spelled like the default",
             exhaustive={"quick": False, "thorough": False},
@@ -266,7 +266,7 @@ def _pspecs():
             cases=pcases.cases_c08, theorems="Typegen.Theorems.C08",
             trusted_base=[LEAN_TB, PROC_TB, "tg-extract (syn) re-reads the *HashData field lists from src/build/generation_cache.rs on every run; the theorem C08_hashedFields_cover is re-checked against them"],
             assumptions=FS_ASSUME + ["one representative edit per output-affecting edit class (31 classes + event on/off + commands on/off)", "the hash function is injective on the hashed view (collisions are outside the model)"],
-            rule="histories [run, edit a, run] for every edit class a (incl. non-`pub` field, visibility, async), [setting on, run, setting off + edit, run, setting on, run] for the five settings, every sequence of up to three steps over {run, forced run, edit, revert, lose types.ts, lose the record, run with a write fault} followed by a run (thorough: all; quick: one in five rotating with the seed), forced runs between an edit and its revert, silent attribute edits (harmless today), [run, delete f, run] for every generated file and the cache record, on both paths; [run, edit a, run, edit b, run] for ordered pairs (quick: every 7th pair rotating with the seed; thorough: all 552 + reverted pairs on the build path); "
+            rule="histories [run, edit a, run] for every edit class a (incl. non-`pub` field, visibility, async), [setting on, run, setting off + edit, run, setting on, run] for the five settings, every sequence of up to three steps over {run, forced run, edit, revert, lose types.ts, lose the record, run with a write fault} followed by a run (thorough: all; quick: one in five rotating with the seed), forced runs between an edit and its revert, silent attribute edits (harmless today), [run, delete f, run] for every generated file and the cache record, on both paths; [run, edit a, run, edit b, run] for ordered pairs (quick: every 7th pair rotating with the seed; thorough: all 552 + reverted pairs on the build path);  [edit classes also: Rust-spelling-only changes with the visualisation on, a channels-only command's rename_all, an error type that starts being emitted, the kind of a member-less type] "
                  "after every successful run the output is compared byte-wise (timestamp line ignored) with a forced generation into an empty directory; non-trivial = history with >=2 steps; distinct = history",
             exhaustive={"quick": False, "thorough": True},
             exhaustive_scope={"thorough": "all single edits and ordered pairs of the 24 edit classes"},
